@@ -14,6 +14,11 @@ import (
 // ---------------------------------------------------------------------------
 // kernel-side objects
 
+type readWait struct {
+	t   *Task
+	max int
+}
+
 type segment struct {
 	b    []byte
 	dead bool
@@ -29,13 +34,15 @@ type pipe struct {
 	weof     bool // writer closed: EOF once everything is consumed
 	rclosed  bool // reader closed: writes fail with EPIPE
 	reset    bool
-	reader   *Task
-	rmax     int
-	writer   *Task
-	wrest    []byte
-	wdone    int
-	conn     *Conn
-	dir      int
+	// readers are the tasks blocked in Read on this direction. A socket may have
+	// several (a helper goroutine left behind by a cancelled operation next to the
+	// current one): arriving data goes to one of them, the kernel decides which.
+	readers []readWait
+	writer  *Task
+	wrest   []byte
+	wdone   int
+	conn    *Conn
+	dir     int
 
 	Written   int // bytes accepted from the writer
 	Delivered int
@@ -627,8 +634,10 @@ func (k *Kernel) read(t *Task, e *Endpoint, max int) {
 		return
 	}
 	p := e.in
-	p.reader = t
-	p.rmax = max
+	if len(p.readers) > 0 {
+		k.Count("concurrent_readers_on_one_endpoint")
+	}
+	p.readers = append(p.readers, readWait{t, max})
 	t.blocked = "read " + e.name()
 	k.armRDL(e)
 }
@@ -663,18 +672,21 @@ func (k *Kernel) tryRead(t *Task, e *Endpoint, max int) bool {
 
 func (k *Kernel) armRDL(e *Endpoint) {
 	e.rdlGen++
-	if e.rdl.IsZero() || e.in.reader == nil {
+	if e.rdl.IsZero() || len(e.in.readers) == 0 {
 		return
 	}
 	gen := e.rdlGen
 	k.At(e.rdl, "read-deadline "+e.name(), func() {
-		if e.rdlGen != gen || e.in.reader == nil {
+		if e.rdlGen != gen || len(e.in.readers) == 0 {
 			return
 		}
-		t := e.in.reader
-		e.in.reader = nil
+		// the deadline belongs to the descriptor: every blocked reader times out
+		rs := e.in.readers
+		e.in.readers = nil
 		k.Fault("read_deadline")
-		k.complete(t, result{err: eTimeout})
+		for _, r := range rs {
+			k.complete(r.t, result{err: eTimeout})
+		}
 	})
 }
 
@@ -690,7 +702,7 @@ func (k *Kernel) setRDL(t *Task, e *Endpoint, at time.Time) {
 	// runnable tasks: if the deadline has been changed again by then (a reset to
 	// "none" that overtakes the wake-up), the event is stale and the reader stays
 	// blocked.
-	if r := e.in.reader; r != nil && !at.IsZero() && !at.After(time.Now()) {
+	if len(e.in.readers) > 0 && !at.IsZero() && !at.After(time.Now()) {
 		k.Fault("read_woken_by_past_deadline")
 	}
 	k.armRDL(e)
@@ -831,11 +843,30 @@ func (k *Kernel) deliver(p *pipe, seg *segment) {
 		k.pumpWriter(p)
 		return
 	}
-	if t := p.reader; t != nil {
-		p.reader = nil
-		e := k.readerEnd(p)
-		e.rdlGen++
-		k.tryRead(t, e, p.rmax)
+	k.serveReaders(p)
+}
+
+// serveReaders hands what is in the buffer (or the end of the stream) to
+// blocked readers, one at a time, in an order the kernel decides.
+func (k *Kernel) serveReaders(p *pipe) {
+	e := k.readerEnd(p)
+	for len(p.readers) > 0 {
+		i := 0
+		if len(p.readers) > 1 {
+			i = k.Draw(len(p.readers))
+		}
+		r := p.readers[i]
+		rest := append([]readWait{}, p.readers[:i]...)
+		rest = append(rest, p.readers[i+1:]...)
+		p.readers = rest
+		if !k.tryRead(r.t, e, r.max) {
+			// nothing for it: back to waiting, and nothing for the others either
+			p.readers = append(p.readers, r)
+			return
+		}
+		if len(p.readers) == 0 {
+			e.rdlGen++
+		}
 	}
 }
 
@@ -902,9 +933,12 @@ func (k *Kernel) pumpWriter(p *pipe) {
 }
 
 func (k *Kernel) failBlocked(p *pipe, rerr, werr errno) {
-	if t := p.reader; t != nil && rerr != eOK {
-		p.reader = nil
-		k.complete(t, result{err: rerr})
+	if len(p.readers) > 0 && rerr != eOK {
+		rs := p.readers
+		p.readers = nil
+		for _, r := range rs {
+			k.complete(r.t, result{err: rerr})
+		}
 	}
 	if t := p.writer; t != nil && werr != eOK {
 		p.writer = nil
@@ -953,9 +987,8 @@ func (k *Kernel) closeEp(t *Task, e *Endpoint, abort bool) {
 	// outgoing: peer sees EOF after the data already written
 	e.out.weof = true
 	k.failBlocked(e.out, eOK, eClosed)
-	if r := e.out.reader; r != nil && len(e.out.buf) == 0 && len(e.out.segs) == 0 {
-		e.out.reader = nil
-		k.complete(r, result{err: eEOF})
+	if len(e.out.buf) == 0 && len(e.out.segs) == 0 {
+		k.serveReaders(e.out)
 	}
 	// incoming: our blocked reader fails; the peer's writes fail from now on
 	e.in.rclosed = true
@@ -982,9 +1015,8 @@ func (k *Kernel) closeHalf(t *Task, e *Endpoint, readSide bool) {
 		e.wClosed = true
 		e.out.weof = true
 		k.failBlocked(e.out, eOK, eClosed)
-		if r := e.out.reader; r != nil && len(e.out.buf) == 0 && len(e.out.segs) == 0 {
-			e.out.reader = nil
-			k.complete(r, result{err: eEOF})
+		if len(e.out.buf) == 0 && len(e.out.segs) == 0 {
+			k.serveReaders(e.out)
 		}
 	}
 	if e.rClosed && e.wClosed && !e.Closed {
